@@ -195,7 +195,17 @@ pub fn f_general(seed: u64, o: &GeneralOpts) -> Plan {
             let t = rng.below(n_topics as u64) as usize;
             let name = format!("projects/{project}/subscriptions/late-{late_sub}");
             late_sub += 1;
-            scripts.push(vec![Step::after(rng.below(60_000), Op::CreateSub { sub: name.clone(), topic: topics[t].clone(), ack_deadline: 10, push: None })]);
+            let mut create = Step::after(rng.below(60_000), Op::CreateSub { sub: name.clone(), topic: topics[t].clone(), ack_deadline: 10, push: None });
+            let mut script = Vec::new();
+            if consumer_faults && rng.chance(350) {
+                // the creating client goes away; somebody else then finds the subscription there
+                create.abandon_at = rng.range(1, 2) as u32;
+                script.push(create);
+                script.push(Step::after(rng.below(5_000), Op::GetSub { sub: name.clone() }));
+            } else {
+                script.push(create);
+            }
+            scripts.push(script);
             subs.push((name, t, false));
         }
         if o.deletes && ph > 0 && rng.chance(150) {
@@ -254,6 +264,7 @@ pub fn f_lease(seed: u64, o: &LeaseOpts) -> Plan {
     let n_steps = rng.range(4, 12);
     script.push(Step::after(rng.below(120_000), Op::Publish { topic: topic.clone(), msgs: msgs_r(&mut rng, 1, 4, false) }));
     let mut pulled_any = false;
+    let mut topic_deleted = false;
     for _ in 0..n_steps {
         // choose a delay: either small jitter or aimed at a boundary of a pending deadline
         let delay = if !marks.is_empty() && rng.chance(600) {
@@ -320,6 +331,11 @@ pub fn f_lease(seed: u64, o: &LeaseOpts) -> Plan {
         script.push(Step::after(delay, op));
         if marks.len() > 6 {
             marks.remove(0);
+        }
+        // the topic may disappear in the middle of a lease: the subscription keeps serving what it holds
+        if pulled_any && !topic_deleted && rng.chance(25) {
+            topic_deleted = true;
+            script.push(Step::after(rng.below(500_000), Op::DeleteTopic { topic: topic.clone() }));
         }
     }
     if !pulled_any {
@@ -621,7 +637,9 @@ pub fn f_listing(seed: u64, big: bool) -> Plan {
     let mut rng = Rng::new(seed);
     let mut plan = Plan { seed, family: "listing".into(), final_drain: false, health_probe: false, ..Default::default() };
     plan.knobs = knobs(&mut rng, false, 0);
-    let projects: Vec<String> = (0..if big { 1 } else { rng.range(1, 3) }).map(|i| format!("proj-list-{i}")).collect();
+    // project ids that are prefixes of one another (a filter by prefix would leak across projects)
+    let project_names = ["proj-list-0", "proj-list", "proj-list-00"];
+    let projects: Vec<String> = (0..if big { 1 } else { rng.range(1, 3) }).map(|i| project_names[i as usize].to_string()).collect();
     let n_topics = if big { rng.range(990, 1030) } else { *rng.pick(&[0u64, 1, 2, 3, 5, 19, 20, 21, 22, 40, 41]) } as usize;
     let n_subs = if big { rng.range(0, 30) } else { *rng.pick(&[0u64, 1, 2, 5, 19, 20, 21, 30]) } as usize;
     let mut topics: Vec<String> = Vec::new();
